@@ -11,24 +11,40 @@ pub mod sym;
 #[cfg(kani)]
 pub mod stubs;
 
+pub mod gen;
 pub mod h;
+#[cfg(feature = "likelysubtags")]
+pub mod lk;
 
 pub mod c02;
+#[cfg(feature = "likelysubtags")]
+pub mod c06;
 pub mod c11;
 pub mod c12;
 pub mod c13;
+pub mod c14;
 pub mod c15;
 pub mod c17;
+#[cfg(feature = "likelysubtags")]
+pub mod c18;
 
 /// every harness, for the native replayer
 pub fn all() -> Vec<(&'static str, fn())> {
     let mut v = Vec::new();
     v.extend_from_slice(c02::LIST);
+    #[cfg(feature = "likelysubtags")]
+    {
+        v.extend_from_slice(c06::LIST);
+        v.extend_from_slice(c06::c07::LIST);
+    }
     v.extend_from_slice(c11::LIST);
     v.extend_from_slice(c12::LIST);
     v.extend_from_slice(c13::LIST);
+    v.extend_from_slice(c14::LIST);
     v.extend_from_slice(c15::LIST);
     v.extend_from_slice(c17::LIST);
     v.extend_from_slice(c17::more::LIST);
+    #[cfg(feature = "likelysubtags")]
+    v.extend_from_slice(c18::LIST);
     v
 }
